@@ -701,8 +701,12 @@ func (t *Teamserver) handleRequest(id string) {
 		pk.Head.Time = time.Now().Format("02/01/2006 15:04:05")
 
 		// listener requests are not retained as they are: the teamserver records its own
-		// announcement once (and only if) the listener exists
-		if pk.Head.Event != packager.Type.Listener.Type {
+		// announcement once (and only if) the listener exists. Neither is the input for an
+		// agent: the dispatcher records what is left of it once it has been turned into a task.
+		// (it strips the package's Info map in place: retained here, that map would be shared
+		// with the event log and with every replay that is being encoded from it, and
+		// concurrent access to a map is fatal)
+		if pk.Head.Event != packager.Type.Listener.Type && !(pk.Head.Event == packager.Type.Session.Type && pk.Body.SubEvent == packager.Type.Session.Input) {
 			t.EventAppend(pk)
 		}
 		t.DispatchEvent(pk)
@@ -861,8 +865,16 @@ func (t *Teamserver) EventListenerError(ListenerName string, Error error) {
 				if t.EventsList[EventID].Body.SubEvent == packager.Type.Listener.Add {
 					if name, ok := t.EventsList[EventID].Body.Info["Name"]; ok {
 						if name == ListenerName {
-							t.EventsList[EventID].Body.Info["Status"] = "Offline"
-							t.EventsList[EventID].Body.Info["Error"] = Error.Error()
+							// the entry gets a new map: the one it has may be in the middle of being
+							// encoded for an operator who is logging in (a replay works on a copy of
+							// the list, the maps are shared), and concurrent access to a map is fatal
+							var Info = make(map[string]interface{}, len(t.EventsList[EventID].Body.Info)+2)
+							for k, v := range t.EventsList[EventID].Body.Info {
+								Info[k] = v
+							}
+							Info["Status"] = "Offline"
+							Info["Error"] = Error.Error()
+							t.EventsList[EventID].Body.Info = Info
 						}
 					}
 				}
